@@ -69,8 +69,7 @@ impl BerHeader {
                 // > 30
                 let mut n = 0 as Tag;
                 loop {
-                    // @todo: check size
-                    let t = i[current];
+                    let t = *i.get(current).ok_or(Err::Incomplete(Needed::new(1)))?;
                     current += 1;
                     n = (n << 7) | ((t & 0x7f) as Tag);
                     if t & 0x80 == 0 {
@@ -84,7 +83,7 @@ impl BerHeader {
         // Parse length offset
         // X.690 8.3.1.4-8.3.1.5
         // @todo: Indefinite length
-        let n = i[current];
+        let n = *i.get(current).ok_or(Err::Incomplete(Needed::new(1)))?;
         current += 1;
         let length = if n & 0x80 == 0 {
             // Short form, X.690 pp 8.3.1.4
@@ -92,7 +91,11 @@ impl BerHeader {
         } else {
             // Long form, X.690 pp 8.1.3.5
             let mut ln = 0;
-            for _ in 0..n & 0x7f {
+            let size = (n & 0x7f) as usize;
+            if i.len() < current + size {
+                return Err(Err::Incomplete(Needed::new(current + size - i.len())));
+            }
+            for _ in 0..size {
                 ln = (ln << 8) + (i[current] as usize);
                 current += 1;
             }
